@@ -7,7 +7,7 @@ id="$1"
 cd /verif
 git -C /repo diff --quiet || { echo "/repo has uncommitted changes; refusing"; exit 2; }
 git -C /repo apply "/verif/neutral/$id/patch.diff" || { echo "$id: patch does not apply"; exit 2; }
-mkdir -p /tmp/mutant_root && cp /verif/known_findings.jsonl /tmp/mutant_root/
+mkdir -p /tmp/mutant_root/replays && cp /verif/known_findings.jsonl /tmp/mutant_root/ && rm -rf /tmp/mutant_root/replays/keep && cp -r /verif/replays/keep /tmp/mutant_root/replays/keep
 res=""
 for prop in C06 C07 C08; do
   out="/tmp/neutral_${id}_${prop}.log"
